@@ -49,7 +49,7 @@ var reuseValName = [...]string{"A", "B", "C", "invalid content", "invalid length
 
 // how the object comes into existence holding A
 const (
-	ctorZeroUnmarshal = iota // var x T; x.UnmarshalBinary(A)
+	ctorZeroUnmarshal = iota // var x T; x.UnmarshalBinary(lend(A))
 	ctorFromBytes            // NewXFromBytes(A)
 	ctorDerived              // derived by the library: Expand*(mini), sk.KeyPair(), sk.PublicKey(), kp.Sign()
 	nCtors
@@ -89,7 +89,7 @@ func (rc reuseCase) String() string {
 var reuseCtx, reuseMsg = []byte("receiver reuse"), []byte("one object, several values")
 
 func (e *env) reuseTranscript() *sr25519.SigningTranscript {
-	return sr25519.NewSigningContext(reuseCtx).NewTranscriptBytes(reuseMsg)
+	return sr25519.NewSigningContext(lendAs("NewSigningContext", reuseCtx)).NewTranscriptBytes(lendAs("SigningContext.NewTranscriptBytes", reuseMsg))
 }
 
 func (e *env) reuseChecks() {
@@ -148,6 +148,80 @@ func (e *env) reuseChecks() {
 
 	e.shortReadChecks()
 	e.contextReuseChecks()
+	e.decodeTwiceChecks(mats)
+}
+
+// decodeTwiceChecks: the SAME wire bytes (one caller buffer, deliberately not copied between the two uses) are
+// decoded twice - first for a single verification, then again for a batch Add - as a server does with a
+// received packet.  Both decodes must succeed and agree, and the buffer must be byte-identical afterwards.
+func (e *env) decodeTwiceChecks(mats []*material) {
+	c := e.c
+	types := []string{"Signature", "PublicKey", "SecretKey", "KeyPair", "MiniSecretKey"}
+	c.Par("decode-twice", len(mats)*len(types), func(w *mc.W, i int) {
+		m, typ := mats[i/len(types)], types[i%len(types)]
+		what := fmt.Sprintf("%s of key %s decoded twice from one buffer", typ, m.k.name)
+		counted := false
+		defer guard(w, &counted, "decode-twice", what)
+		w.Eval("decode-twice", true)
+		counted = true
+		cas := map[string]string{"case": what}
+		orig := map[string][]byte{"Signature": m.sig, "PublicKey": m.pkB, "SecretKey": m.skB, "KeyPair": m.kpB, "MiniSecretKey": m.k.mini}[typ]
+		wire := append(make([]byte, 0, len(orig)+16), orig...) // the packet: private to this case, shared by both decodes
+		st := e.reuseTranscript()
+		var enc [2][]byte
+		for round := 0; round < 2; round++ {
+			var obj interface{ MarshalBinary() ([]byte, error) }
+			var err error
+			switch typ {
+			case "Signature":
+				var s *sr25519.Signature
+				s, err = sr25519.NewSignatureFromBytes(wire)
+				obj = s
+				if err == nil {
+					if round == 0 && !m.k.pk.Verify(st, s) {
+						w.Fail("PublicKey.Verify/complete", "signature decoded from the packet does not verify | "+what, cas)
+					}
+					if round == 1 {
+						bv := sr25519.NewBatchVerifier()
+						bv.Add(m.k.pk, st, s)
+						if all, _ := bv.Verify(mkReader(rdZero)); !all {
+							w.Fail("BatchVerifier.Verify/complete", "signature decoded a second time from the same packet fails in a batch | "+what, cas)
+						}
+					}
+				}
+			case "PublicKey":
+				var p *sr25519.PublicKey
+				p, err = sr25519.NewPublicKeyFromBytes(wire)
+				obj = p
+				if err == nil {
+					s, _ := sr25519.NewSignatureFromBytes(append([]byte{}, m.sig...))
+					bv := sr25519.NewBatchVerifier()
+					bv.Add(p, st, s)
+					if all, _ := bv.Verify(mkReader(rdZero)); !p.Verify(st, s) || !all {
+						w.Fail("PublicKey.Verify/complete", fmt.Sprintf("public key decoded from the packet (decode #%d) does not verify its signature | %s", round+1, what), cas)
+					}
+				}
+			case "SecretKey":
+				obj, err = sr25519.NewSecretKeyFromBytes(wire)
+			case "KeyPair":
+				obj, err = sr25519.NewKeyPairFromBytes(wire)
+			default:
+				obj, err = sr25519.NewMiniSecretKeyFromBytes(wire)
+			}
+			if err != nil {
+				w.Fail(typ+".UnmarshalBinary/decode-twice", fmt.Sprintf("decode #%d of the same valid bytes failed: %v | %s", round+1, err, what), cas)
+				break
+			}
+			enc[round] = mustMarshal(obj)
+			if !bytes.Equal(enc[round], orig) {
+				w.Fail(typ+".UnmarshalBinary/decode-twice", fmt.Sprintf("decode #%d gives %x, the bytes were %x | %s", round+1, enc[round], orig, what), cas)
+			}
+		}
+		if !bytes.Equal(wire, orig) {
+			w.Fail(typ+".UnmarshalBinary/caller-memory-modified", fmt.Sprintf("decoding changed the caller's buffer: was %x, now %x | %s", orig, wire, what), cas)
+		}
+	})
+	e.requires = append(e.requires, req{"decode-twice", 30})
 }
 
 // encoding returns the byte string a step decodes, and whether the reference accepts it.
@@ -221,7 +295,7 @@ func (e *env) runReuse(w *mc.W, rc reuseCase, mats []*material) {
 	)
 	a, _ := reuseEncoding(rc.typ, valA, m)
 	expand := func(k *keyInfo) *sr25519.SecretKey {
-		mk, err := sr25519.NewMiniSecretKeyFromBytes(k.mini)
+		mk, err := sr25519.NewMiniSecretKeyFromBytes(lendAs("MiniSecretKey.UnmarshalBinary", k.mini))
 		if err != nil {
 			panic(err)
 		}
@@ -235,9 +309,9 @@ func (e *env) runReuse(w *mc.W, rc reuseCase, mats []*material) {
 		switch rc.ctor {
 		case ctorZeroUnmarshal:
 			sk = &sr25519.SecretKey{}
-			err = sk.UnmarshalBinary(a)
+			err = sk.UnmarshalBinary(lend(a))
 		case ctorFromBytes:
-			sk, err = sr25519.NewSecretKeyFromBytes(a)
+			sk, err = sr25519.NewSecretKeyFromBytes(lendAs("SecretKey.UnmarshalBinary", a))
 		default:
 			sk = expand(m[valA].k)
 		}
@@ -245,9 +319,9 @@ func (e *env) runReuse(w *mc.W, rc reuseCase, mats []*material) {
 		switch rc.ctor {
 		case ctorZeroUnmarshal:
 			kp = &sr25519.KeyPair{}
-			err = kp.UnmarshalBinary(a)
+			err = kp.UnmarshalBinary(lend(a))
 		case ctorFromBytes:
-			kp, err = sr25519.NewKeyPairFromBytes(a)
+			kp, err = sr25519.NewKeyPairFromBytes(lendAs("KeyPair.UnmarshalBinary", a))
 		default:
 			kp = expand(m[valA].k).KeyPair()
 		}
@@ -255,9 +329,9 @@ func (e *env) runReuse(w *mc.W, rc reuseCase, mats []*material) {
 		switch rc.ctor {
 		case ctorZeroUnmarshal:
 			pk = &sr25519.PublicKey{}
-			err = pk.UnmarshalBinary(a)
+			err = pk.UnmarshalBinary(lend(a))
 		case ctorFromBytes:
-			pk, err = sr25519.NewPublicKeyFromBytes(a)
+			pk, err = sr25519.NewPublicKeyFromBytes(lendAs("PublicKey.UnmarshalBinary", a))
 		default:
 			pk = expand(m[valA].k).PublicKey()
 		}
@@ -265,9 +339,9 @@ func (e *env) runReuse(w *mc.W, rc reuseCase, mats []*material) {
 		switch rc.ctor {
 		case ctorZeroUnmarshal:
 			sig = &sr25519.Signature{}
-			err = sig.UnmarshalBinary(a)
+			err = sig.UnmarshalBinary(lend(a))
 		case ctorFromBytes:
-			sig, err = sr25519.NewSignatureFromBytes(a)
+			sig, err = sr25519.NewSignatureFromBytes(lendAs("Signature.UnmarshalBinary", a))
 		default:
 			sig, err = expand(m[valA].k).KeyPair().Sign(mkReader(rdZero), st)
 		}
@@ -275,9 +349,9 @@ func (e *env) runReuse(w *mc.W, rc reuseCase, mats []*material) {
 		switch rc.ctor {
 		case ctorZeroUnmarshal:
 			msk = &sr25519.MiniSecretKey{}
-			err = msk.UnmarshalBinary(a)
+			err = msk.UnmarshalBinary(lend(a))
 		case ctorFromBytes:
-			msk, err = sr25519.NewMiniSecretKeyFromBytes(a)
+			msk, err = sr25519.NewMiniSecretKeyFromBytes(lendAs("MiniSecretKey.UnmarshalBinary", a))
 		default:
 			msk, err = sr25519.GenerateMiniSecretKey(bytes.NewReader(a))
 		}
@@ -297,7 +371,7 @@ func (e *env) runReuse(w *mc.W, rc reuseCase, mats []*material) {
 					fail(key, "after %s the key pair must hold nothing", after)
 				}
 			case ruPublicKey:
-				s, _ := sr25519.NewSignatureFromBytes(m[valA].sig)
+				s, _ := sr25519.NewSignatureFromBytes(lendAs("Signature.UnmarshalBinary", m[valA].sig))
 				if !bytes.Equal(mustMarshal(pk), zeros(32)) || pk.Verify(st, s) {
 					fail(key, "after %s the public key must hold nothing", after)
 				}
@@ -317,7 +391,7 @@ func (e *env) runReuse(w *mc.W, rc reuseCase, mats []*material) {
 			if !bytes.Equal(b, cur.kpB) {
 				fail(key, "after %s: %s encodes to %x, reference key pair of %s is %x", after, what, b, reuseValName[state], cur.kpB)
 			}
-			if _, err := sr25519.NewKeyPairFromBytes(b); err != nil {
+			if _, err := sr25519.NewKeyPairFromBytes(lendAs("KeyPair.UnmarshalBinary", b)); err != nil {
 				fail(key, "after %s: encoding of %s is rejected by NewKeyPairFromBytes: %v", after, what, err)
 			}
 			if !bytes.Equal(mustMarshal(p.PublicKey()), cur.pkB) || !bytes.Equal(mustMarshal(p.SecretKey()), cur.skB) {
@@ -334,7 +408,7 @@ func (e *env) runReuse(w *mc.W, rc reuseCase, mats []*material) {
 			if !p.PublicKey().Verify(st, s) {
 				fail(key, "after %s: signature by %s does not verify under its own public key", after, what)
 			}
-			fresh, err := sr25519.NewPublicKeyFromBytes(cur.pkB)
+			fresh, err := sr25519.NewPublicKeyFromBytes(lendAs("PublicKey.UnmarshalBinary", cur.pkB))
 			if err != nil || !fresh.Verify(st, s) {
 				fail(key, "after %s: signature by %s does not verify under a fresh public key of value %s", after, what, reuseValName[state])
 			}
@@ -343,7 +417,7 @@ func (e *env) runReuse(w *mc.W, rc reuseCase, mats []*material) {
 			if all, _ := bv.Verify(mkReader(rdZero)); !all {
 				fail(key, "after %s: signature by %s fails in a batch", after, what)
 			}
-			if o, err := sr25519.NewPublicKeyFromBytes(other.pkB); err != nil || o.Verify(st, s) {
+			if o, err := sr25519.NewPublicKeyFromBytes(lendAs("PublicKey.UnmarshalBinary", other.pkB)); err != nil || o.Verify(st, s) {
 				fail(key, "after %s: signature by %s verifies under another key", after, what)
 			}
 		}
@@ -356,10 +430,10 @@ func (e *env) runReuse(w *mc.W, rc reuseCase, mats []*material) {
 				fail(key, "after %s: PublicKey() is %x, the public key of value %s is %x", after, b, reuseValName[state], cur.pkB)
 			}
 			checkSigner(sk.KeyPair(), "KeyPair()")
-			if fresh, err := sr25519.NewSecretKeyFromBytes(cur.skB); err != nil || !sk.Equal(fresh) || !fresh.Equal(sk) {
+			if fresh, err := sr25519.NewSecretKeyFromBytes(lendAs("SecretKey.UnmarshalBinary", cur.skB)); err != nil || !sk.Equal(fresh) || !fresh.Equal(sk) {
 				fail(key, "after %s: not Equal to a fresh object holding value %s", after, reuseValName[state])
 			}
-			if o, err := sr25519.NewSecretKeyFromBytes(other.skB); err != nil || sk.Equal(o) {
+			if o, err := sr25519.NewSecretKeyFromBytes(lendAs("SecretKey.UnmarshalBinary", other.skB)); err != nil || sk.Equal(o) {
 				fail(key, "after %s: Equal to a different key", after)
 			}
 		case ruKeyPair:
@@ -368,8 +442,8 @@ func (e *env) runReuse(w *mc.W, rc reuseCase, mats []*material) {
 			if b := mustMarshal(pk); !bytes.Equal(b, cur.pkB) {
 				fail(key, "after %s: MarshalBinary %x, want %x", after, b, cur.pkB)
 			}
-			s, _ := sr25519.NewSignatureFromBytes(cur.sig)
-			so, _ := sr25519.NewSignatureFromBytes(other.sig)
+			s, _ := sr25519.NewSignatureFromBytes(lendAs("Signature.UnmarshalBinary", cur.sig))
+			so, _ := sr25519.NewSignatureFromBytes(lendAs("Signature.UnmarshalBinary", other.sig))
 			if !pk.Verify(st, s) {
 				fail(key, "after %s: does not verify the signature of value %s", after, reuseValName[state])
 			}
@@ -382,10 +456,10 @@ func (e *env) runReuse(w *mc.W, rc reuseCase, mats []*material) {
 			if all, each := bv.Verify(mkReader(rdZero)); all || len(each) != 2 || !each[0] || each[1] {
 				fail(key, "after %s: batch verdicts %v, want [true false]", after, each)
 			}
-			if fresh, err := sr25519.NewPublicKeyFromBytes(cur.pkB); err != nil || !pk.Equal(fresh) || !fresh.Equal(pk) {
+			if fresh, err := sr25519.NewPublicKeyFromBytes(lendAs("PublicKey.UnmarshalBinary", cur.pkB)); err != nil || !pk.Equal(fresh) || !fresh.Equal(pk) {
 				fail(key, "after %s: not Equal to a fresh object holding value %s", after, reuseValName[state])
 			}
-			if o, err := sr25519.NewPublicKeyFromBytes(other.pkB); err != nil || pk.Equal(o) {
+			if o, err := sr25519.NewPublicKeyFromBytes(lendAs("PublicKey.UnmarshalBinary", other.pkB)); err != nil || pk.Equal(o) {
 				fail(key, "after %s: Equal to a different key", after)
 			}
 		case ruSignature:
@@ -413,8 +487,8 @@ func (e *env) runReuse(w *mc.W, rc reuseCase, mats []*material) {
 			if b := mustMarshal(msk.ExpandEd25519()); !bytes.Equal(b, refsr.ExpandEd25519(cur.k.mini).Bytes()) {
 				fail(key, "after %s: ExpandEd25519 differs from the reference for value %s", after, reuseValName[state])
 			}
-			fresh, _ := sr25519.NewMiniSecretKeyFromBytes(cur.k.mini)
-			o, _ := sr25519.NewMiniSecretKeyFromBytes(other.k.mini)
+			fresh, _ := sr25519.NewMiniSecretKeyFromBytes(lendAs("MiniSecretKey.UnmarshalBinary", cur.k.mini))
+			o, _ := sr25519.NewMiniSecretKeyFromBytes(lendAs("MiniSecretKey.UnmarshalBinary", other.k.mini))
 			if !msk.Equal(fresh) || msk.Equal(o) {
 				fail(key, "after %s: Equal disagrees with the held value", after)
 			}
@@ -457,15 +531,15 @@ func (e *env) runReuse(w *mc.W, rc reuseCase, mats []*material) {
 		b, ok := reuseEncoding(rc.typ, v, m)
 		switch rc.typ {
 		case ruSecretKey:
-			err = sk.UnmarshalBinary(b)
+			err = sk.UnmarshalBinary(lend(b))
 		case ruKeyPair:
-			err = kp.UnmarshalBinary(b)
+			err = kp.UnmarshalBinary(lend(b))
 		case ruPublicKey:
-			err = pk.UnmarshalBinary(b)
+			err = pk.UnmarshalBinary(lend(b))
 		case ruSignature:
-			err = sig.UnmarshalBinary(b)
+			err = sig.UnmarshalBinary(lend(b))
 		case ruMiniSecretKey:
-			err = msk.UnmarshalBinary(b)
+			err = msk.UnmarshalBinary(lend(b))
 		}
 		after := fmt.Sprintf("step %d, UnmarshalBinary(%s)", si+1, reuseValName[v])
 		if (err == nil) != ok {
@@ -531,7 +605,7 @@ func (e *env) shortReadChecks() {
 		counted = true
 		cas := map[string]string{"case": what}
 		ctx := []byte("short reads")
-		st := src.mk(sr25519.NewSigningContext(ctx), msg)
+		st := src.mk(sr25519.NewSigningContext(lendAs("NewSigningContext", ctx)), msg)
 		want := refsr.Sign(k.rsk, k.rpk, refTranscript(src, ctx, msg), stream(rdGeneric, 32)).Sig
 		sig, err := k.kp.Sign(&chunkReader{b: stream(rdGeneric, 256), n: chunk}, st)
 		if err != nil || sig == nil {
@@ -602,8 +676,8 @@ func (e *env) contextReuseChecks() {
 		counted = true
 		cas := map[string]string{"case": what}
 		// ONE context object and ONE key pair object (freshly decoded, so that its history is only this case)
-		sc := sr25519.NewSigningContext(ctx)
-		kp, err := sr25519.NewKeyPairFromBytes(k.rsk.KeypairBytes())
+		sc := sr25519.NewSigningContext(lendAs("NewSigningContext", ctx))
+		kp, err := sr25519.NewKeyPairFromBytes(lendAs("KeyPair.UnmarshalBinary", k.rsk.KeypairBytes()))
 		if err != nil {
 			w.Fail("KeyPair.UnmarshalBinary/valid", "reference key pair rejected", cas)
 			return
